@@ -283,10 +283,7 @@ def compare(case, io, mo):
 
 def compare_phase(case, ioA, ioB, mo, natives):
     raising = any(s.get('raise') is not None for s in natives)
-    # the model names fresh cells by a counter per search path; terms of different answers that findall/3 collects in one
-    # list can therefore share a cell name where the engine has distinct Variables: with findall in the program the model
-    # is compared up to the identity of unbound variables (engine A against engine B stays exact)
-    fa = uses_findall(case)
+    fa = False      # (kept for replays of older runs: the model's findall/3 now renames the cells of each answer apart)
     final = ioB is not None
     for q, a0, b0, m in zip(case['queries'], ioA, ioB if final else ioA, mo):
         mn, mc, mnr = view(m[0]), view(m[1]), view(m[3])
